@@ -8,7 +8,7 @@ model with the tail condition of Do/DoMulti repaired (see `close_race_strands_ca
 -/
 import Rv.Lemmas.PipeLifeProgress
 import Rv.Gen.PipeShape
-namespace Rv.C04b
+namespace Rv.C04.Life
 open Rv.PipeLife
 
 /-! ### (a) nothing is left behind once the teardown has finished -/
@@ -437,4 +437,4 @@ theorem pipelife_shape_pinned :
   refine ⟨rfl, rfl, rfl, rfl, rfl, rfl, rfl, rfl, rfl, rfl, rfl, rfl, rfl, rfl, rfl, rfl, rfl, rfl, rfl, rfl,
     rfl, rfl, rfl, rfl, rfl⟩
 
-end Rv.C04b
+end Rv.C04.Life
